@@ -259,3 +259,168 @@ Section SerialP.
     forall i j r r', hs S c i = TIn S r -> hs S c j = TIn S r' -> i = j.
   Proof. intros St. apply (j_one _ (J_steps c St)). Qed.
 End SerialP.
+
+(* ---------- readers and writers under one RWMutex ---------- *)
+Section RWP.
+  Variable S A : Type.
+  Variable wb : nat -> list (S -> S).
+  Variable rq : nat -> S -> A.
+  Variable s0 : S.
+
+  Notation rths := (rths S A).
+  Notation rsigma := (rsigma S A).
+  Notation rorder := (rorder S A).
+  Notation WIn := (WIn S A).
+  Notation RGot := (RGot S A).
+  Notation RDone := (RDone S A).
+  Notation writer_in := (writer_in S A).
+  Notation reader_in := (reader_in S A).
+
+  Record K (c : rwconfig S A) : Prop := {
+    k_wone : forall i j r r', rths c i = WIn r -> rths c j = WIn r' -> i = j;
+    k_excl : forall i j, writer_in (rths c i) -> ~ reader_in (rths c j);
+    k_in : forall i r, rths c i = WIn r -> run_body S r (rsigma c) = serial S wb (rorder c) s0;
+    k_out : (forall i, ~ writer_in (rths c i)) -> rsigma c = serial S wb (rorder c) s0;
+    k_ans : forall i a, rths c i = RGot a \/ rths c i = RDone a ->
+            exists k, a = rq i (serial S wb (skipn k (rorder c)) s0) }.
+
+  Lemma rwupd_same h i x : rwupd S A h i x i = x.
+  Proof. unfold rwupd. rewrite Nat.eqb_refl. reflexivity. Qed.
+  Lemma rwupd_other h i x j : j <> i -> rwupd S A h i x j = h j.
+  Proof. unfold rwupd. intros H. apply Nat.eqb_neq in H. rewrite H. reflexivity. Qed.
+
+  Lemma K_init h : rwinit S A s0 h -> K (mk_rwconfig S A s0 h []).
+  Proof.
+    intros Hi. split; cbn.
+    - intros i j r r' Hx. destruct (Hi i) as [E|E]; rewrite E in Hx; discriminate.
+    - intros i j [r Hx]. destruct (Hi i) as [E|E]; rewrite E in Hx; discriminate.
+    - intros i r Hx. destruct (Hi i) as [E|E]; rewrite E in Hx; discriminate.
+    - reflexivity.
+    - intros i a [Hx|Hx]; destruct (Hi i) as [E|E]; rewrite E in Hx; discriminate.
+  Qed.
+
+  (* a thread whose new state is neither "writer inside" nor an answer, and which was not
+     a writer inside before: the writer-related parts of the invariant are untouched *)
+  Ltac split_at j i := destruct (Nat.eq_dec j i) as [->|?];
+                       [rewrite ?rwupd_same in *|rewrite ?rwupd_other in * by assumption].
+
+  Lemma K_step c c' : K c -> rwstep S A wb rq c c' -> K c'.
+  Proof.
+    intros Kc St. destruct St as [i Hi Free|i f r Hi|i Hi|i Hi NoW|i Hi|i a Hi].
+    - (* writer locks *)
+      assert (NoWr : forall j r, rths c j <> WIn r) by (intros j r E; apply (proj1 (Free j)); exists r; exact E).
+      split; cbn [Lock.rths Lock.rsigma Lock.rorder].
+      + intros a b r r' Ha Hb. destruct (Nat.eq_dec a i) as [->|Na]; destruct (Nat.eq_dec b i) as [->|Nb]; auto.
+        * rewrite rwupd_other in Hb by exact Nb. exfalso. eapply NoWr; eauto.
+        * rewrite rwupd_other in Ha by exact Na. exfalso. eapply NoWr; eauto.
+        * rewrite rwupd_other in Ha by exact Na. exfalso. eapply NoWr; eauto.
+      + intros a b _ Rb. destruct (Nat.eq_dec b i) as [->|Nb].
+        * rewrite rwupd_same in Rb. destruct Rb as [E|[x E]]; discriminate.
+        * rewrite rwupd_other in Rb by exact Nb. apply (proj2 (Free b)). exact Rb.
+      + intros a r Ha. destruct (Nat.eq_dec a i) as [->|Na].
+        * rewrite rwupd_same in Ha. inversion Ha; subst r. cbn [serial fold_right]. f_equal.
+          apply (k_out _ Kc). intros j. apply (proj1 (Free j)).
+        * rewrite rwupd_other in Ha by exact Na. exfalso. eapply NoWr; eauto.
+      + intros H. exfalso. apply (H i). rewrite rwupd_same. exists (wb i). reflexivity.
+      + intros a x Ha. destruct (Nat.eq_dec a i) as [->|Na].
+        * rewrite rwupd_same in Ha. destruct Ha; discriminate.
+        * rewrite rwupd_other in Ha by exact Na. destruct (k_ans _ Kc a x Ha) as [k Ek]. exists (Datatypes.S k). exact Ek.
+    - (* writer step *)
+      assert (Only : forall a r', rths c a = WIn r' -> a = i) by (intros a r' Ha; eapply (k_wone _ Kc); eauto).
+      split; cbn [Lock.rths Lock.rsigma Lock.rorder].
+      + intros a b r1 r2 Ha Hb.
+        assert (a = i). { destruct (Nat.eq_dec a i) as [->|Na]; [reflexivity|]. rewrite rwupd_other in Ha by exact Na. eapply Only; eauto. }
+        assert (b = i). { destruct (Nat.eq_dec b i) as [->|Nb]; [reflexivity|]. rewrite rwupd_other in Hb by exact Nb. eapply Only; eauto. }
+        congruence.
+      + intros a b _ Rb. destruct (Nat.eq_dec b i) as [->|Nb].
+        * rewrite rwupd_same in Rb. destruct Rb as [E|[x E]]; discriminate.
+        * rewrite rwupd_other in Rb by exact Nb. apply (k_excl _ Kc i b); [exists (f :: r); exact Hi|exact Rb].
+      + intros a r' Ha. destruct (Nat.eq_dec a i) as [->|Na].
+        * rewrite rwupd_same in Ha. inversion Ha; subst r'. rewrite <- (k_in _ Kc i (f :: r) Hi). reflexivity.
+        * rewrite rwupd_other in Ha by exact Na. exfalso. apply Na. eapply Only; eauto.
+      + intros H. exfalso. apply (H i). rewrite rwupd_same. exists r. reflexivity.
+      + intros a x Ha. destruct (Nat.eq_dec a i) as [->|Na].
+        * rewrite rwupd_same in Ha. destruct Ha; discriminate.
+        * rewrite rwupd_other in Ha by exact Na. apply (k_ans _ Kc a x Ha).
+    - (* writer unlocks *)
+      assert (Only : forall a r', rths c a = WIn r' -> a = i) by (intros a r' Ha; eapply (k_wone _ Kc); eauto).
+      assert (NoW' : forall a r', rwupd S A (rths c) i (WDone S A) a <> WIn r').
+      { intros a r' Ha. destruct (Nat.eq_dec a i) as [->|Na]; [rewrite rwupd_same in Ha; discriminate|].
+        rewrite rwupd_other in Ha by exact Na. apply Na. eapply Only; eauto. }
+      split; cbn [Lock.rths Lock.rsigma Lock.rorder].
+      + intros a b r1 r2 Ha _. exfalso. eapply NoW'; eauto.
+      + intros a b [r' Ha] _. eapply NoW'; eauto.
+      + intros a r' Ha. exfalso. eapply NoW'; eauto.
+      + intros _. apply (k_in _ Kc i [] Hi).
+      + intros a x Ha. destruct (Nat.eq_dec a i) as [->|Na].
+        * rewrite rwupd_same in Ha. destruct Ha; discriminate.
+        * rewrite rwupd_other in Ha by exact Na. apply (k_ans _ Kc a x Ha).
+    - (* reader locks *)
+      assert (NoW' : forall a r', rwupd S A (rths c) i (RIn S A) a <> WIn r').
+      { intros a r' Ha. destruct (Nat.eq_dec a i) as [->|Na]; [rewrite rwupd_same in Ha; discriminate|].
+        rewrite rwupd_other in Ha by exact Na. apply (NoW a). exists r'. exact Ha. }
+      split; cbn [Lock.rths Lock.rsigma Lock.rorder].
+      + intros a b r1 r2 Ha _. exfalso. eapply NoW'; eauto.
+      + intros a b [r' Ha] _. eapply NoW'; eauto.
+      + intros a r' Ha. exfalso. eapply NoW'; eauto.
+      + intros _. apply (k_out _ Kc). exact NoW.
+      + intros a x Ha. destruct (Nat.eq_dec a i) as [->|Na].
+        * rewrite rwupd_same in Ha. destruct Ha; discriminate.
+        * rewrite rwupd_other in Ha by exact Na. apply (k_ans _ Kc a x Ha).
+    - (* reader reads *)
+      assert (NoW : forall a, ~ writer_in (rths c a)).
+      { intros a Wa. apply (k_excl _ Kc a i Wa). left. exact Hi. }
+      assert (NoW' : forall a r', rwupd S A (rths c) i (RGot (rq i (rsigma c))) a <> WIn r').
+      { intros a r' Ha. destruct (Nat.eq_dec a i) as [->|Na]; [rewrite rwupd_same in Ha; discriminate|].
+        rewrite rwupd_other in Ha by exact Na. apply (NoW a). exists r'. exact Ha. }
+      split; cbn [Lock.rths Lock.rsigma Lock.rorder].
+      + intros a b r1 r2 Ha _. exfalso. eapply NoW'; eauto.
+      + intros a b [r' Ha] _. eapply NoW'; eauto.
+      + intros a r' Ha. exfalso. eapply NoW'; eauto.
+      + intros _. apply (k_out _ Kc). exact NoW.
+      + intros a x Ha. destruct (Nat.eq_dec a i) as [->|Na].
+        * rewrite rwupd_same in Ha. exists 0. cbn [skipn]. rewrite <- (k_out _ Kc NoW).
+          destruct Ha as [E|E]; inversion E; reflexivity.
+        * rewrite rwupd_other in Ha by exact Na. apply (k_ans _ Kc a x Ha).
+    - (* reader unlocks *)
+      assert (WSame : forall b r', rwupd S A (rths c) i (RDone a) b = WIn r' -> rths c b = WIn r').
+      { intros b r' Hb. destruct (Nat.eq_dec b i) as [->|Nb]; [rewrite rwupd_same in Hb; discriminate|].
+        rewrite rwupd_other in Hb by exact Nb. exact Hb. }
+      split; cbn [Lock.rths Lock.rsigma Lock.rorder].
+      + intros x y r1 r2 Hx Hy. apply (k_wone _ Kc x y r1 r2); apply WSame; assumption.
+      + intros x y [r' Hx] Ry. apply WSame in Hx. destruct (Nat.eq_dec y i) as [->|Ny].
+        * apply (k_excl _ Kc x i); [exists r'; exact Hx|]. right. exists a. exact Hi.
+        * rewrite rwupd_other in Ry by exact Ny. apply (k_excl _ Kc x y); [exists r'; exact Hx|exact Ry].
+      + intros x r' Hx. apply (k_in _ Kc x r'). apply WSame. exact Hx.
+      + intros H. apply (k_out _ Kc). intros x [r' Hx]. apply (H x). exists r'.
+        destruct (Nat.eq_dec x i) as [->|Nx]; [rewrite Hi in Hx; discriminate|]. rewrite rwupd_other by exact Nx. exact Hx.
+      + intros x y Hx. destruct (Nat.eq_dec x i) as [->|Nx].
+        * rewrite rwupd_same in Hx. apply (k_ans _ Kc i y). left.
+          destruct Hx as [E|E]; inversion E; subst; exact Hi.
+        * rewrite rwupd_other in Hx by exact Nx. apply (k_ans _ Kc x y Hx).
+  Qed.
+
+  Lemma K_steps c0 c : K c0 -> rwsteps S A wb rq c0 c -> K c.
+  Proof.
+    intros K0 St. induction St as [c|c c' c'' St1 IH St2]; [exact K0|].
+    eapply K_step; [apply IH; exact K0|exact St2].
+  Qed.
+
+  (* rw_sections_atomic: from any initial population of idle writers and readers,
+     (1) every answer a reader obtained is its query on the state produced by a PREFIX (in
+         time) of the COMPLETE writer sections — never on a half-updated state;
+     (2) whenever no writer is inside, the state is the serial run of the writers in
+         lock-acquisition order;
+     (3) a writer inside excludes every other writer and every reader. *)
+  Lemma rw_sections_atomic h c : rwinit S A s0 h -> rwsteps S A wb rq (mk_rwconfig S A s0 h []) c ->
+    (forall i a, rths c i = RGot a \/ rths c i = RDone a ->
+       exists k, a = rq i (serial S wb (skipn k (rorder c)) s0)) /\
+    ((forall i, ~ writer_in (rths c i)) -> rsigma c = serial S wb (rorder c) s0) /\
+    (forall i j, writer_in (rths c i) -> (writer_in (rths c j) -> i = j) /\ ~ reader_in (rths c j)).
+  Proof.
+    intros Hi St. pose proof (K_steps _ c (K_init h Hi) St) as Kc.
+    split; [apply (k_ans _ Kc)|]. split; [apply (k_out _ Kc)|].
+    intros i j Wi. split; [|apply (k_excl _ Kc i j Wi)].
+    intros [r' Hj]. destruct Wi as [r Hi']. eapply (k_wone _ Kc); eauto.
+  Qed.
+End RWP.
